@@ -312,6 +312,8 @@ pub struct Tables {
     pub externs: BTreeMap<String, ExternInfo>,
     /// macro parameters in declaration order
     pub mvars: Vec<MVar>,
+    /// `fuel <fn key> <coq nat>`: calls of this fuelled function pass this constant (the model's bound) instead of the caller's fuel
+    pub fuel_consts: BTreeMap<String, String>,
     /// type of an associated constant of a generic type parameter, by constant name
     pub assoc_tys: BTreeMap<String, Ty>,
     pub adts: BTreeMap<String, Adt>,
